@@ -398,7 +398,11 @@ def judge_oversize(var, oa, ob, cnt):
     has_bnb = any(l["rule"] == "BedAndBreakfast" for d in lc.all_disposals(R) if d["ticker"] == tk for l in d["legs"])
     has_sell = any(t["kind"] == "SELL" for t in ts)
     shape = (":security-has-30-day-legs" if has_bnb else (":security-has-earlier-sales" if has_sell else ":never-sold"))
-    over = net > c + Fraction(1, 10 ** 9)
+    over = net > c + Fraction(1, 10 ** 6)
+    if not over and net > c - Fraction(1, 10 ** 6):
+        # exactly on the boundary: a residue of ~1e-24 in an averaged same-day price decides; not judged
+        cnt["returns_exactly_at_the_remaining_expenditure(not judged)"] += 1
+        return viols
     if over:
         cnt["oversize_returns"] += 1
         if "ok" in ob:
